@@ -265,3 +265,35 @@ func AllocBytes() uint64 {
 	}
 	return allocSample[0].Value.Uint64()
 }
+
+// Carve lays the given octet strings out back to back in ONE buffer (followed by a guard area) and returns a view of each:
+// every view has the right length and content, but spare capacity, and what lies behind it is the next argument. That is how
+// a caller holds e.g. Ni|Nr|g^ir or the nonces of several exchanges. unchanged() reports whether any octet of the buffer - an
+// argument or the memory behind one - was written to meanwhile.
+func Carve(parts ...[]byte) (views [][]byte, unchanged func() error) {
+	total := 32
+	for _, p := range parts {
+		total += len(p)
+	}
+	buf := make([]byte, 0, total)
+	offs := make([]int, len(parts))
+	for i, p := range parts {
+		offs[i] = len(buf)
+		buf = append(buf, p...)
+	}
+	for len(buf) < total {
+		buf = append(buf, 0xC3)
+	}
+	snapshot := append([]byte(nil), buf...)
+	for i, p := range parts {
+		views = append(views, buf[offs[i]:offs[i]+len(p)]) // capacity runs to the end of the buffer
+	}
+	return views, func() error {
+		for i := range buf {
+			if buf[i] != snapshot[i] {
+				return fmt.Errorf("octet %d of the buffer holding the arguments was overwritten (%#02x -> %#02x): an argument, or the memory behind an argument's length, was written to", i, snapshot[i], buf[i])
+			}
+		}
+		return nil
+	}
+}
